@@ -1021,6 +1021,66 @@ func runC20(c *Ctx) {
 		c.Check("C20.L5", "no-reentrant-acquisition", len(bad) == 0, 0, fmt.Sprintf("%d call(s) made with a mutex held; none of the callees acquires that mutex again", nHeld), bad...)
 		c.Min("C20.L5", 1)
 	}
+	// ---------- S3 no in-place reuse of a caller's slice: `append(s[:0], …)` keeps s's backing array — for a slice that
+	// reaches the function through a parameter (or a field of one) that is a write into memory the caller, and whoever
+	// else holds the slice, still uses (the copying idioms are append([]T(nil), s...), s[:0:0], slices.Clone)
+	{
+		var bad []string
+		n := 0
+		for _, f := range c.Funcs {
+			pp := pkgPathOf(f)
+			if !strings.HasPrefix(pp, modPath) || isMockPath(pp) || f.Blocks == nil {
+				continue
+			}
+			forEachInstr(f, func(in ssa.Instruction) {
+				sl, ok := in.(*ssa.Slice)
+				if !ok || sl.High == nil || sl.Max != nil {
+					return
+				}
+				if hk, isK := sl.High.(*ssa.Const); !isK || c.Path(hk, nil) != "0" {
+					return
+				}
+				if _, isSl := sl.X.Type().Underlying().(*types.Slice); !isSl {
+					return
+				}
+				n++
+				// where the slice comes from: a parameter, or memory reachable from one
+				root := sl.X
+				for d := 0; d < 6; d++ {
+					switch y := root.(type) {
+					case *ssa.UnOp:
+						root = y.X
+						continue
+					case *ssa.FieldAddr:
+						root = y.X
+						continue
+					case *ssa.IndexAddr:
+						root = y.X
+						continue
+					case *ssa.Field:
+						root = y.X
+						continue
+					}
+					break
+				}
+				if _, isP := root.(*ssa.Parameter); !isP {
+					return
+				}
+				if sl.Referrers() == nil {
+					return
+				}
+				for _, r := range *sl.Referrers() {
+					if cl, isC := r.(*ssa.Call); isC {
+						if b, isB := cl.Call.Value.(*ssa.Builtin); isB && b.Name() == "append" && len(cl.Call.Args) > 0 && cl.Call.Args[0] == ssa.Value(sl) {
+							bad = append(bad, c.pos(sl.Pos())+": "+short(f.String())+" appends into "+c.Path(sl.X, nil)+"[:0]")
+						}
+					}
+				}
+			})
+		}
+		c.Check("C20.S3", "no-in-place-reuse-of-caller-slices", len(bad) == 0, 0, fmt.Sprintf("%d zero-length re-slicings in the module; none of a slice handed in by the caller is appended to", n), bad...)
+		c.Min("C20.S3", 1)
+	}
 	c.Assume("documented concurrency-safe types: *regexp.Regexp, *slog.Logger, *log.Logger, error values; third-party state (did-go / json-gold document loaders, go-jose) and user-supplied handlers/validators are outside the claim; the effect analysis is field-based (no points-to), sound for the write check")
 }
 
